@@ -93,11 +93,15 @@ impl BufModel {
                 bytes,
                 buffered_after,
             } => {
+                if !self.pending.is_empty() && self.file != *file {
+                    // the writer replaced its BufWriter without flushing it first: dropping a
+                    // BufWriter hands its buffer to the OS (std flushes on drop, silently)
+                    self.flush(step, out);
+                }
                 if self.pending.is_empty() {
                     self.file = *file;
                     self.start = *offset;
                 } else {
-                    assert_eq!(self.file, *file, "BufWriter switched file with pending bytes");
                     assert_eq!(self.start + self.pending.len() as u64, *offset);
                 }
                 self.pending.extend_from_slice(bytes);
